@@ -185,11 +185,13 @@ type mockProvider struct{}
 type mockPub struct{ raw []byte }
 
 func (k *mockPub) Verify(data []byte, sig []byte) (bool, error) { return len(sig) == 3, nil }
-func (k *mockPub) Raw() ([]byte, error)                          { return k.raw, nil }
-func (k *mockPub) Type() pb.KeyType                              { return pb.KeyType_Secp256k1 }
-func (k *mockPub) Equals(o crypto.Key) bool                      { return false }
+func (k *mockPub) Raw() ([]byte, error)                         { return k.raw, nil }
+func (k *mockPub) Type() pb.KeyType                             { return pb.KeyType_Secp256k1 }
+func (k *mockPub) Equals(o crypto.Key) bool                     { return false }
 
-func (mockProvider) GetID(context.Context, *idp.CreateIdentityOptions) (string, error) { return "id", nil }
+func (mockProvider) GetID(context.Context, *idp.CreateIdentityOptions) (string, error) {
+	return "id", nil
+}
 func (mockProvider) SignIdentity(context.Context, []byte, string) ([]byte, error) {
 	return []byte("sig"), nil
 }
@@ -510,5 +512,5 @@ func (d *memDag) Remove(_ context.Context, c cid.Cid) error {
 	})
 	return nil
 }
-func (d *memDag) RemoveMany(context.Context, []cid.Cid) error                  { return nil }
-func (d *memDag) Pinning() format.NodeAdder                                    { return d }
+func (d *memDag) RemoveMany(context.Context, []cid.Cid) error { return nil }
+func (d *memDag) Pinning() format.NodeAdder                   { return d }
